@@ -558,3 +558,48 @@ func TestC04(t *testing.T) {
 		return stepCase{T: d, N: n, M: m}
 	})
 }
+
+// ------------------------------------------------------------------------------------------
+// native fuzz targets (thorough tier, additive): same oracles, byte-level coverage-guided inputs
+
+func FuzzJulianDay(f *testing.F) {
+	for _, jd := range []float64{1721423.5, 2299159.5, 2299160.4999999, 2299160.5, 2451544.5, 2451545.0, 2451544.9999942, 5373483.4999999, 2460000.99999, 1721454.4999999} {
+		f.Add(jd)
+	}
+	f.Fuzz(func(t *testing.T, jd float64) {
+		if !(jd >= 1721424.0 && jd <= 5373118.0) { // 0001-01-01 12:00 .. 9998-12-31 12:00
+			return
+		}
+		// decompose into the nearest whole second and the offset from it; skip the ambiguous half-second ties
+		sec := (jd + 0.5) * 86400
+		near := math.Round(sec)
+		us := int(math.Round((sec - near) * 1e6))
+		if us > 499000 || us < -499000 {
+			return
+		}
+		d := ref.FromSec(int64(near))
+		if d.Y < 1 || d.Y > 9998 {
+			return
+		}
+		ev.FuzzCheck(t, jdInverse, jdCase{d, us})
+	})
+}
+
+func FuzzStep(f *testing.F) {
+	f.Add(1582, 10, 4, 23, 59, 59, 1, 1)
+	f.Add(1582, 10, 15, 0, 0, 0, -1, -1)
+	f.Add(2000, 2, 29, 12, 0, 0, 366, -366)
+	f.Add(1, 1, 1, 0, 0, 0, 200000, 7)
+	f.Add(9998, 12, 31, 23, 59, 59, -200000, -7)
+	f.Fuzz(func(t *testing.T, y, m, d, h, mi, s, n, k int) {
+		if !ref.Valid(y, m, d, h, mi, s) || y < 1 || y > 9998 || n > 4000000 || n < -4000000 || k > 4000000 || k < -4000000 {
+			return
+		}
+		c := stepCase{ref.DT{Y: y, M: m, D: d, H: h, Mi: mi, S: s}, n, k}
+		ev.FuzzCheck(t, dayStep, c)
+		if n > -200000 && n < 200000 {
+			ev.FuzzCheck(t, hourStep, stepCase{T: c.T, N: n})
+			ev.FuzzCheck(t, monthStep, stepCase{T: c.T, N: n % 2400, M: k % 200})
+		}
+	})
+}
